@@ -933,7 +933,8 @@ def branch_values(stmts, sink, env0=None, max_paths=2000, follow_loops=False, op
             raise Unknown('too many paths')
         for i, st in enumerate(block):
             rest = block[i + 1:]
-            r = sink(st)
+            compound = isinstance(st, (ast.If, ast.For, ast.While, ast.Try, ast.With, ast.AsyncFor, ast.AsyncWith, ast.FunctionDef, ast.ClassDef))
+            r = None if compound else sink(st)
             if r is not None:
                 target, value = r if isinstance(r, tuple) else (None, r)
                 v = expand(value, env) if value is not None else None
@@ -961,9 +962,19 @@ def branch_values(stmts, sink, env0=None, max_paths=2000, follow_loops=False, op
                 t = canon(expand(st.test, env))
                 nt = negate(t)
                 tt, ntt = ctext(t), ctext(nt)
+                folded = None
                 if isinstance(t, ast.Constant):
+                    folded = bool(t.value)
+                else:
+                    try:
+                        folded = bool(eval_test(t, {}))
+                    except Unknown:
+                        folded = None
+                    except Exception:
+                        folded = None
+                if folded is not None:
                     # the test folded to a constant on this path (e.g. a temporary that is still None): one branch only
-                    run(list(st.body if t.value else st.orelse) + rest, env, conds, nodes)
+                    run(list(st.body if folded else st.orelse) + rest, env, conds, nodes)
                     return
                 # a path that assumes both a condition and its negation is infeasible
                 if ntt not in conds:
